@@ -86,6 +86,10 @@ def run(prop, tier):
         for t in traces[:2]:
             out.sample({'kind': t['kind'], 'cfg': {k: t['cfg'][k] for k in (
                 'nx', 'ny', 'nz', 'nt', 'spc', 'year', 'jjj', 'hour')}})
+    if prop == 'C13':
+        # the record cursor on which every sequential reader is built
+        import recordfile
+        recordfile.run_recordfile(out, tier, rnd)
     verdicts = validate_traces('Camx_Trace', traces, out, shard=60,
                                env={'PNC_CAMX_PROP': prop}, label=prop,
                                timeout=3000)
